@@ -15,11 +15,17 @@ NSDICT = [[EX, "ex"], [M.XSD, "xsd"], [M.RDF, "rdf"], [OTHER, "oth"], [EX2, "exn
 def _lit(rnd, rich=True):
     r = rnd.random()
     if not rich:
+        if r < .08:                                        # plain strings that spell a boolean: strings all the same
+            return M.lit(rnd.choice(["true", "false"]))
         return M.lit("s%d" % rnd.randint(0, 4)) if r < .6 else M.lit(str(rnd.randint(0, 4)), M.XSD_INTEGER)
     if r < .03:
         return M.lit("")                                   # the empty string is a literal too
     if r < .06:                                            # line boundaries for str.splitlines(), not for N-Triples (those that XML 1.0 can carry: every channel must deliver them)
         return M.lit("a%sb" % rnd.choice(["\u2028", "\x85", "\u2029"]), lang=rnd.choice([None, None, "en"]))
+    if r < .10:                                            # plain strings that read like numbers or booleans are strings
+        return M.lit(rnd.choice(["33001", "3.14", "1e3", "nan", "+8", "-0", "true", "false", "0261103571"]))
+    if r < .14:                                            # a line feed inside the lexical form, whatever the kind of the literal
+        return rnd.choice([M.lit("l1\nl2", lang="en"), M.lit("x\ny", DT_CUSTOM), M.lit("a\nb"), M.lit("v1\n\nv2", lang="es")])
     if r < .4:
         return M.lit("s%d" % rnd.randint(0, 4))
     if r < .6:
@@ -101,6 +107,13 @@ def general_graph(rnd, max_nodes=7, bnodes=True, rich_literals=True, inst_prop=M
                 T.add((M.iri(c), rnd.choice(props), rnd.choice(nodes)))
             if rnd.random() < .3:
                 T.add((rnd.choice(nodes), rnd.choice(props), M.iri(c)))
+    if hierarchy and rnd.random() < .15:      # the properties are described in the data too: one IRI is a predicate here and a node there
+        for p in rnd.sample(props, rnd.randint(1, len(props))):
+            T.add((M.iri(p), inst_prop, M.iri(rnd.choice(classes + [EX + "Prop"]))))
+            if rnd.random() < .5:
+                T.add((rnd.choice(nodes), rnd.choice(props), M.iri(p)))
+            if rnd.random() < .4:
+                T.add((M.iri(p), rnd.choice(props), _lit(rnd, rich_literals)))
     T = sorted(T, key=str)
     rnd.shuffle(T)
     return with_homographs(T, rnd) if rich_literals else T
@@ -320,6 +333,31 @@ def boundary_graph(rnd):
     return T, [[k, n] for k in ks]
 
 
+def hub_case(rnd, cid):
+    """one instance with more than a thousand values of one kind for one property (a hub: sitelinks, citations) - or, with inverse
+    paths, more than a thousand incoming arcs - among n instances; the other features sit exactly on k/n thresholds"""
+    n = rnd.randint(3, 5)
+    big = rnd.choice([1001, 1003, 1024, 1100])
+    A = [M.iri(EX + "a%d" % i) for i in range(n)]
+    T = [(x, M.RDF_TYPE, M.iri(EX + "A")) for x in A]
+    inverse = rnd.random() < .4
+    hubs = rnd.sample(A, rnd.randint(1, 2))
+    for h in hubs:
+        for j in range(big):
+            if inverse:
+                T.append((M.iri(EX + "u%d" % j), EX + "cites", h))
+            else:
+                T.append((h, EX + "label", M.lit("v%d" % j)))
+    k = rnd.randint(1, n - 1)
+    for x in rnd.sample(A, k):
+        T.append((x, EX + "name", M.lit("n")))
+    thr = rnd.choice([[len(hubs) + 1, n], [k, n], [1, 2], [len(hubs), n]])
+    if thr[0] > thr[1]:
+        thr = [1, 1]
+    return case(cid, T, mode="classes", targets=[EX + "A"], thr=thr, inverse=inverse, keepLess=rnd.random() < .7,
+                allCompliant=rnd.random() < .5, report="mixed")
+
+
 def fan_case(rnd, cid, thr=None):
     """shape-map shapes: a hub L0 whose nodes link, through one property per leaf, to the nodes of 2-4 leaf shapes L1..Lk; a leaf's
     only shared feature is held by m of its n nodes, so each leaf empties at its own threshold and several can go in the same
@@ -371,6 +409,32 @@ def or_fan_case(rnd, cid):
     rnd.shuffle(T)
     return case(cid, T, mode="shapemap", items=items, thr=rnd.choice([[0, 1], [1, 2], [1, 1]]), removeEmpty=True, nsDict=NSDICT,
                 disableOr=False, redundantOr=rnd.random() < .5, inverse=rnd.random() < .2, allCompliant=rnd.random() < .5)
+
+
+def single_constraint_case(rnd, cid):
+    """shape-map shapes over untyped nodes that have ONE property (no rdf:type line keeps it company): the shape's only constraint
+    has a cardinality above one, a frequency below 100 % or both, so every rewriting option has something to rewrite in it; a
+    second shape with two constraints stands next to it"""
+    n = rnd.randint(2, 4)
+    xs = [M.iri(EX + "x%d" % i) for i in range(n)]
+    ys = [M.iri(EX + "y%d" % i) for i in range(rnd.randint(1, 3))]
+    T, items = [], []
+    lit_valued = rnd.random() < .5
+    kk = rnd.choice([2, 2, 3])
+    for i, x in enumerate(xs):
+        items.append({"label": EX + "shapes/L0", "labelSpelling": "bracket", "spelling": "bracket", "kind": "node", "node": list(x)})
+        if i > 0 and rnd.random() < .35:
+            continue            # selected, without the feature: an object of somebody's triple only
+        for j in range(kk if rnd.random() < .7 else rnd.randint(1, 3)):
+            T.append((x, EX + "knows", M.lit("v%d" % j) if lit_valued else M.iri(EX + "z%d" % j)))
+    for i, y in enumerate(ys):
+        items.append({"label": EX + "shapes/L1", "labelSpelling": "bracket", "spelling": "bracket", "kind": "node", "node": list(y)})
+        T.append((y, EX + "name", M.lit("n")))
+        for x in rnd.sample(xs, rnd.randint(1, n)):
+            T.append((y, EX + "sees", x))
+    rnd.shuffle(T)
+    return case(cid, T, mode="shapemap", items=items, nsDict=NSDICT, thr=rnd.choice([[0, 1], [0, 1], [1, 2]]), keepLess=rnd.random() < .5,
+                report="mixed", comments=True)
 
 
 def tied_focus_case(rnd, cid):
